@@ -40,14 +40,19 @@ def key_sims():
     return out
 
 
-def record_for(sim, pool, idxs, mult=1):
+def record_for(sim, pool, idxs, mult=1, float_form=0):
     from panqec.utils import NumpyEncoder
     ts = [pool[i - 1] for i in idxs for _ in range(mult)]
     res = {'n_runs': len(ts), 'wall_time': 0.5 * len(ts),
            'effective_error': [list(t['ee']) for t in ts],
            'success': [bool(t['ok']) for t in ts],
            'codespace': [bool(t['cs']) for t in ts]}
-    return json.loads(json.dumps({'results': res, 'inputs': sim._inputs}, cls=NumpyEncoder))
+    out = json.loads(json.dumps({'results': res, 'inputs': sim._inputs}, cls=NumpyEncoder))
+    if float_form:
+        # the same nominal rate as another arithmetic produces it
+        # (0.1 + 0.2 = 0.30000000000000004 for 0.3; np.arange leaves such tails)
+        out['inputs']['error_rate'] = out['inputs']['error_rate'] + float_form * 2e-17 * 4
+    return out
 
 
 def materialise(layout, pool, sims, work, mult=1):
@@ -55,7 +60,8 @@ def materialise(layout, pool, sims, work, mult=1):
     from panqec.cli import cli
     paths = []
     for ci, c in enumerate(layout):
-        recs = [record_for(sims[pool[r[0] - 1]['key']], pool, r, mult) for r in c['recs'] if r]
+        recs = [record_for(sims[pool[r[0] - 1]['key']], pool, r, mult, float_form=(ci + j_) % 2)
+                for j_, r in enumerate(c['recs']) if r]
         kind = c['kind']
         # repeated-runs layout: every container sits in its own directory and
         # carries the same file name (run_0/results.zip, run_1/results.zip, ...)
